@@ -7,7 +7,5 @@ CONSTANTS
   MaxOps = 40
   NumSel <- NumSel_none
 SPECIFICATION SimSpec
-INVARIANT TypeInv
-INVARIANT ModelInv
 INVARIANT PrintLeaf
 CHECK_DEADLOCK FALSE
